@@ -256,14 +256,16 @@ static void family_tasks(std::vector<Task>& tasks, const Config& cfg, const std:
     const int n1s[] = {0, 1, merge_n1, merge_n2}; 
     for (int a = 0; a < 4; ++a) for (int b = 0; b < 4; ++b) {
       if (cfg.quick() && (a + b) % 2 == 1 && oc > 0) continue;
-      for (int form = 0; form < 3; ++form) {
+      for (int form = 0; form < 4; ++form) {   // form 3: the target was queried before the merge (cached sorted view, sortedness flags set)
+        if (form == 3 && (n1s[a] == 0 || n1s[b] == 0)) continue;
         QuantSys<Fam> sys; sys.slot_cfgs.push_back(base); sys.slot_cfgs.push_back(other_cfgs[oc]); sys.light_check = true; sys.check_published = true;
         std::vector<std::string> vn; distinct_domain(sys, 2 * std::max(n1s[a], n1s[b]) + 6, vn);   // distinct values: A gets even indices, B odd ones
-        sys.add_update_ops(0, false); sys.add_update_ops(1, false); sys.add_slot_merge_ops(0, 1); sys.add_slot_merge_ops(1, 0);
-        sys.nm = tag + "/merge/k" + str(other_cfgs[oc].k) + "/n" + str(n1s[a]) + "+" + str(n1s[b]) + (form == 0 ? "/A.merge(B)" : form == 1 ? "/A.merge(move(B))" : "/B.merge(A)");
+        sys.add_update_ops(0, false); sys.add_update_ops(1, false); sys.add_slot_merge_ops(0, 1); sys.add_slot_merge_ops(1, 0); sys.add_query_op(0);
+        sys.nm = tag + "/merge/k" + str(other_cfgs[oc].k) + "/n" + str(n1s[a]) + "+" + str(n1s[b]) + (form == 0 ? "/A.merge(B)" : form == 1 ? "/A.merge(move(B))" : form == 2 ? "/B.merge(A)" : "/A.query.merge(B)");
         std::vector<std::string> seq = shape("mixed", n1s[a], 0, vn, 0, 2), s2 = shape("zigzag", n1s[b], 1, vn, 1, 2);
         seq.insert(seq.end(), s2.begin(), s2.end());
-        seq.push_back(form == 0 ? "M01" : form == 1 ? "R01" : "M10");
+        if (form == 3) seq.push_back("Q0");
+        seq.push_back(form == 0 || form == 3 ? "M01" : form == 1 ? "R01" : "M10");
         int slot = form == 2 ? 1 : 0;
         for (int e = 0; e < 3; ++e) seq.push_back("U" + str(slot) + ":" + vn[vn.size() - 1 - 2 * e]);   // keep updating the merged sketch
         size_t from = seq.size() - 3;
@@ -365,6 +367,10 @@ static void long_req(const std::string& name, int k, bool hra, int n, int S, Rep
     Ctx c(rep, name, hist);
     for (int sd = 0; sd < 3; ++sd) for (int r = 0; r < 7; ++r) {
       double allow = nominal[sd] * S + 5 * std::sqrt(S * nominal[sd] * (1 - nominal[sd])) + 1;
+      // the statement claims REQ's relative bounds "at the accurate end" only (high ranks for HRA, low ranks for LRA); the other
+      // half is recorded in the scenario line below and not gated (the 1-sd bounds at the far end cover noticeably less than 68 %)
+      const bool accurate_half = hra ? ranks[r] >= 0.5 : ranks[r] <= 0.5;
+      if (!accurate_half) { if (out[sd][r] > allow) rep.count("req_bounds_below_nominal_coverage_at_the_inaccurate_end(diagnostic)"); continue; }
       c.ok("req-bounds-cover-true-rank", out[sd][r] <= allow, "rank " + str(ranks[r]) + " sd " + str(sd + 1) + ": true rank outside [lb,ub] for " + str(out[sd][r]) + " of " + str(S) + " bit sources");
     }
     c.eq("req-exact-region-is-exact", exact_wrong, 0);
